@@ -51,7 +51,7 @@ impl Scenario {
                 Shape::Tee(..) => "tee".into(),
                 Shape::Diamond(..) => "diamond".into(),
                 Shape::Merge(_) => "merge".into(),
-                Shape::Packets(_) => "packets".into(),
+                Shape::Packets(_) | Shape::PacketsTail(..) => "packets".into(),
                 Shape::VecPackets(_) => "vecpackets".into(),
             },
             Scenario::Run(p) => format!("{}-{}", p.kind, p.runner),
@@ -212,6 +212,39 @@ fn c05_scenarios(thorough: bool) -> Vec<Scenario> {
         },
         2,
     ));
+    // A windowed consumer (the real FirFilter) on streams large enough for a
+    // call to be limited by output room rather than by input; and the tail
+    // countdown of StreamToPdu across chunk boundaries.
+    for (len, order) in [(6usize, vec![0usize, 1, 2]), (9, vec![2, 1, 0]), (9, vec![0, 1, 2])] {
+        v.push(Scenario::MtResult(
+            GraphSpec {
+                shape: Shape::Chain(vec![Stage::Fir(2)]),
+                per_page: 4,
+                pages: 1,
+                src_len: len,
+                order,
+                file_repeat: 0,
+                vec_repeat: 0,
+            },
+            1,
+        ));
+    }
+    for (k, tail, len, per_page) in [(1usize, 1usize, 9usize, 2usize), (2, 1, 11, 4)] {
+        for order in [vec![0usize, 1, 2, 3, 4], vec![4, 3, 2, 1, 0]] {
+            v.push(Scenario::MtResult(
+                GraphSpec {
+                    shape: Shape::PacketsTail(k, tail),
+                    per_page,
+                    pages: 1,
+                    src_len: len,
+                    order,
+                    file_repeat: 0,
+                    vec_repeat: 0,
+                },
+                1,
+            ));
+        }
+    }
     // Delay, now that it is repaired.
     for len in [1usize, 3] {
         for order in some_orders(3) {
@@ -298,6 +331,21 @@ fn c07_scenarios(thorough: bool) -> Vec<Scenario> {
             cancel_early: false,
         }));
     }
+    // An output that no block reads: held by the application, full, never
+    // closed. Cancellation must still get every block out of its wait.
+    for runner in ["mt", "st"] {
+        for cancel_early in [false, true] {
+            v.push(Scenario::Run(RunParams {
+                kind: "cancel-held".into(),
+                runner: runner.into(),
+                infinite: true,
+                src_len: 0,
+                fail_block: 0,
+                fail_call: 0,
+                cancel_early,
+            }));
+        }
+    }
     // A failure must be reported also when cancellation races with it.
     for runner in ["mt", "st"] {
         for fail_block in 0..3 {
@@ -369,6 +417,7 @@ fn c03_scenarios(thorough: bool) -> Vec<Scenario> {
                             rneed_full: rf,
                             hold: true,
                             tagged: false,
+                            ignore_tags: false,
                         }));
                     }
                 }
@@ -386,7 +435,22 @@ fn c03_scenarios(thorough: bool) -> Vec<Scenario> {
         rneed_full: false,
         hold: true,
         tagged: false,
+        ignore_tags: false,
     }));
+    // The same loops over a stream that carries tags: commit and consume take
+    // other paths then. The tags themselves are C02's business.
+    let mut extra = Vec::new();
+    for s in &v {
+        if let Scenario::Pc(p) = s {
+            if p.cap >= 2 && !p.wneed_full {
+                let mut q = p.clone();
+                q.tagged = true;
+                q.ignore_tags = true;
+                extra.push(Scenario::Pc(q));
+            }
+        }
+    }
+    v.extend(extra);
     v
 }
 
@@ -396,7 +460,7 @@ fn c02_scenarios(thorough: bool) -> Vec<Scenario> {
         .into_iter()
         .filter_map(|s| match s {
             Scenario::Pc(mut p) => {
-                if p.wneed_full {
+                if p.wneed_full || p.tagged {
                     return None;
                 }
                 p.tagged = true;
